@@ -386,6 +386,17 @@ int read_elf(
     if (elf_shdr.sh_type == SHT_SYMTAB && symbols != NULL)
     {
       long marker = file.tell();
+
+      // The symbol table can't be bigger than what is left of the file.
+      const uint64_t file_length = file.get_file_length();
+
+      if (elf_shdr.sh_offset > file_length ||
+          elf_shdr.sh_size > file_length - elf_shdr.sh_offset)
+      {
+        printf("ELF Error: section %d reaches past the end of the file\n", n);
+        return -1;
+      }
+
       file.set(elf_shdr.sh_offset);
 
       int sym_size = is_32_bit ? 16 : 24;
